@@ -38,8 +38,12 @@ def level_constants(info):
     primes = [int(p) for p in info["primes"]]
     t = info["t"]
     n = info["n"]
-    data = primes[:-1]           # the last prime is the special prime
-    special = primes[-1]
+    if info.get("special_enc") or len(primes) == 1:
+        data = primes            # no special prime: the first level is the key level, key switching is unavailable
+        special = max(primes)
+    else:
+        data = primes[:-1]       # the last prime is the special prime
+        special = primes[-1]
     nl = info.get("levels", len(data)) or len(data)
     off = len(data) - nl         # the chain may stop early (e.g. when the plain modulus exceeds the remaining modulus)
     qlow, qhigh, pbits, qinvt = [], [], [], []
